@@ -11,7 +11,7 @@ histories of **any** length:
   violation `translate_three_frames_not_rect` of the excluded case; `compress_empty_unchanged`);
 * `step_names_nodup` / `run_names_nodup` — names stay pairwise distinct unless the caller edits names;
 * `step_refines` / `run_refines` — refinement to the plain-list reference model `Gv.Spec.stepOp`, for
-  all 28 operations of the history language;
+  all 31 operations of the history language (`Unalign`, `RenameRegexp` and `SetAlphabet` included);
 * `lookup_paths_agree`, `idByName_spec`, `byName_found_iff`, `obs_*` — the access paths agree;
 * `add_wrong_length_rejected` — a sequence of the wrong length is rejected, state unchanged.
 
@@ -125,6 +125,17 @@ theorem step_inv (b : Bag) (h : Inv b) (op : Op) (hw : OpWF b op) : Inv (stepOp 
         · exact h
         · rename_i r hr
           exact inv_compressBag b h r hr
+  | unalign =>
+    simp only [stepOp]
+    split
+    · exact h
+    · exact inv_unalign b
+  | renameRe ok names =>
+    simp only [stepOp]
+    split
+    · exact h
+    · exact inv_renameRegexp names b h
+  | setAlpha a => exact inv_setAlphabet a b h
 
 /-- **Every reachable state satisfies the invariant**: induction over histories of any length, from
 any state satisfying it (in particular from the empty containers). -/
@@ -395,6 +406,17 @@ theorem step_rect (b : Bag) (h : Rect b) (op : Op) (hw : RectOK b op) : Rect (st
         · exact h
         · rename_i hne _ r hr
           exact rect_compressBag (by intro he; rw [he] at hne; exact hne rfl) r hr
+  | unalign =>
+    simp only [stepOp]
+    split
+    · exact h
+    · exact rect_unalign b
+  | renameRe ok names =>
+    simp only [stepOp]
+    split
+    · exact h
+    · exact rect_renameRegexp names h
+  | setAlpha a => exact rect_setAlphabet a h
 
 /-- **Every reachable alignment is rectangular**: induction over histories of any length. -/
 theorem run_rect (ops : List Op) (b : Bag) (h : Rect b) (hw : HistRectOK b ops) : Rect (finalState b ops) := by
@@ -406,24 +428,50 @@ theorem run_rect (ops : List Op) (b : Bag) (h : Rect b) (hw : HistRectOK b ops) 
 
 theorem rect_of_empty_align (alphabet : Nat) : Rect (newAlign alphabet) := (good_newAlign alphabet).rect
 
-/-- every row of an alignment built by any history has exactly the reported length, and the reported
-length is `-1` exactly when there is no row -/
-theorem rows_have_reported_length (alphabet : Nat) (ops : List Op) (hw : HistRectOK (newAlign alphabet) ops) :
+/-- the kind of a container changes only through `Unalign`: a history without it leaves an alignment an
+alignment and a sequence set a sequence set -/
+theorem kind_preserved (ops : List Op) (b : Bag) (hne : ∀ op ∈ ops, op ≠ .unalign) :
+    (finalState b ops).isAlign = b.isAlign := by
+  induction ops generalizing b with
+  | nil => rfl
+  | cons op t ih =>
+    simp only [finalState, List.foldl_cons]
+    exact (ih _ (fun o ho => hne o (List.mem_cons_of_mem _ ho))).trans (isAlign_stepOp b op (hne op (by simp)))
+
+/-- … and no history turns a plain sequence set into an alignment (`Unalign` goes one way) -/
+theorem kind_only_decreases (ops : List Op) (b : Bag) (h : (finalState b ops).isAlign = true) :
+    b.isAlign = true := by
+  induction ops generalizing b with
+  | nil => exact h
+  | cons op t ih =>
+    simp only [finalState, List.foldl_cons] at h
+    exact isAlign_of_stepOp b op (ih _ h)
+
+/-- `Unalign` (on an alphabet a sequence set can have) succeeds and yields a plain sequence set -/
+theorem unalign_is_seqbag (b : Bag) (ha : seqBagAlphabetOK b.alphabet = true) :
+    (stepOp b .unalign).1.isAlign = false ∧ (stepOp b .unalign).2 = "ok" := by
+  simp only [stepOp, ha, Bool.not_true, Bool.false_eq_true, if_false]
+  exact ⟨isAlign_unalign b, trivial⟩
+
+/-- every row of an alignment reached by any history (now including `Unalign`, after which the object is a
+plain sequence set and reports no length at all) has exactly the reported length, and the reported length is
+`-1` exactly when there is no row -/
+theorem rows_have_reported_length (alphabet : Nat) (ops : List Op) (hw : HistRectOK (newAlign alphabet) ops)
+    (ha : (finalState (newAlign alphabet) ops).isAlign = true) :
     (∀ r ∈ (finalState (newAlign alphabet) ops).rows,
         (r.seq.length : Int) = (finalState (newAlign alphabet) ops).length) ∧
     ((finalState (newAlign alphabet) ops).length = -1 ↔ (finalState (newAlign alphabet) ops).rows = []) := by
   have h := run_rect ops _ (rect_of_empty_align alphabet) hw
-  have ha : (finalState (newAlign alphabet) ops).isAlign = true := by
-    have : ∀ (ops : List Op) (b : Bag), (finalState b ops).isAlign = b.isAlign := by
-      intro ops
-      induction ops with
-      | nil => intro b; rfl
-      | cons op t ih =>
-        intro b
-        simp only [finalState, List.foldl_cons]
-        exact (ih _).trans (isAlign_stepOp b op)
-    rw [this]; rfl
   exact ⟨h.rows_len ha, h.length_eq_neg_one_iff ha⟩
+
+/-- the statement for histories in the language before `Unalign` was added, unchanged: without an `Unalign`
+the final object is an alignment and the conclusion holds outright -/
+theorem rows_have_reported_length_aligned (alphabet : Nat) (ops : List Op) (hw : HistRectOK (newAlign alphabet) ops)
+    (hne : ∀ op ∈ ops, op ≠ .unalign) :
+    (∀ r ∈ (finalState (newAlign alphabet) ops).rows,
+        (r.seq.length : Int) = (finalState (newAlign alphabet) ops).length) ∧
+    ((finalState (newAlign alphabet) ops).length = -1 ↔ (finalState (newAlign alphabet) ops).rows = []) :=
+  rows_have_reported_length alphabet ops hw (by rw [kind_preserved ops _ hne]; rfl)
 
 /-- why `L ≡ 2 (mod 3)`: the frames 0, 1, 2 of `L ≥ 2` columns have `L/3`, `(L-1)/3`, `(L-2)/3` codons, all equal
 exactly in that case -/
@@ -458,9 +506,10 @@ theorem compress_empty_unchanged :
 /-! ## names stay pairwise distinct unless the caller renames two rows to the same name -/
 
 /-- **One step keeps the names pairwise distinct**, for every operation other than the caller's own
-name edits (`NameEdit`: `Rename`, `AppendSeqIdentifier`, `CleanNames`, `TrimNames`, `TrimNamesAuto`):
+name edits (`NameEdit`: `Rename`, `RenameRegexp`, `AppendSeqIdentifier`, `CleanNames`, `TrimNames`, `TrimNamesAuto`):
 insertion under every duplicate-name policy either ignores the row or renames it to a name not in use;
-every rebuild goes through insertion; `Concat` only adds rows whose name is absent. -/
+every rebuild goes through insertion (so does `Unalign`, into its new sequence set); `Concat` only adds rows
+whose name is absent. -/
 theorem step_names_nodup (b : Bag) (hi : Inv b) (hr : Rect b) (hn : NamesNodup b) (op : Op)
     (hne : ¬ NameEdit op) (hw : OpWF b op) : NamesNodup (stepOp b op).1 :=
   (ni_stepOp ⟨hi, hn⟩ hr op hne (fun perm e => by subst e; exact hw)).nodup
@@ -478,12 +527,24 @@ theorem run_names_nodup (ops : List Op) (b : Bag) (hi : Inv b) (hr : Rect b) (hn
       (step_names_nodup b hi hr hn op (hne op (by simp)) hw.1)
       (fun o ho => hne o (List.mem_cons_of_mem _ ho)) hw.2 hrw.2
 
+/-- **`Unalign` on pairwise distinct names**: the new sequence set shows exactly the old rows, in order, under
+their names, each without its gap characters (the insertions have nothing to rename) -/
+theorem unalign_rows_of_distinct_names (b : Bag) (hn : NamesNodup b) :
+    pairs (unalign b) = (pairs b).map fun p => (p.1, p.2.filter fun c => c != GAP) := by
+  have hnd : (((pairs b).map fun p => (p.1, degap p.2)).map Prod.fst).Nodup := by
+    simpa [pairs, List.map_map, Function.comp_def, NamesNodup] using hn
+  obtain ⟨b', -, hrun, -, k2, -⟩ := rebuild_into (newBag b.alphabet) rfl rfl _ hnd (by intro hh; cases hh)
+  unfold unalign
+  rw [hrun, k2]
+  rfl
+
 /-! ## refinement: the Go-shaped container is the plain list of (name, sequence) pairs
 
 `abs` forgets ids, the name index, the allocation counter and the cached length.  `Good` is the strong
 invariant (`Inv`, the index points to the *first* row of each name, `Rect`, an alignment's alphabet is
 never `BOTH`).  `Spec.stepOp` is the reference model on plain lists (`Gv/Spec/Bag.lean`); it returns
-`none` for the state where the documented meaning leaves it unspecified (a rebuild by re-insertion, a
+`none` for the state where the documented meaning leaves it unspecified (a rebuild by re-insertion — other
+than `Unalign`'s, which the reference states as insertions —, a
 shuffle or a sample after the caller made two rows share a name; an operation that reported an error and
 may leave anything behind; the three-frame translation of an alignment whose frames differ in length). -/
 
@@ -494,10 +555,11 @@ def OpWFR (b : Bag) : Op → Prop
   | .sample _ perm => IsPerm perm b.rows.length
   | _ => True
 
-/-- **One step refines the reference model** — every one of the 28 operations of the history
+/-- **One step refines the reference model** — every one of the 31 operations of the history
 language (`add`, `ignore`, `clear`, `append`, `concat`, `rename`, `appendId`, `cleanNames`, `trimNames`,
 `trimAuto`, `sort`, `permute`, `filter`, `dedup`, `rmSeqs`, `translate`, `clone`, `sample`, `toUpper`,
-`toLower`, `replace`, `setChar`, `trimSeqs`, `autoAlpha`, `revcomp`, `replaceChar`, `rmGapSites`, `compress`), arbitrary arguments: whenever the reference
+`toLower`, `replace`, `setChar`, `trimSeqs`, `autoAlpha`, `revcomp`, `replaceChar`, `rmGapSites`, `compress`,
+`unalign`, `renameRe`, `setAlpha`), arbitrary arguments: whenever the reference
 specifies the outcome of the operation on the observable content, the Go-shaped model yields exactly
 that content (names, row order, residues, policy, alphabet, kind) and that status, and the strong
 invariant holds again. -/
@@ -534,6 +596,9 @@ theorem step_refines (b : Bag) (h : Good b) (op : Op) (hw : OpWFR b op)
     | replaceChar name site c => exact ref_replaceChar h name site c
     | rmGapSites num den ends => exact ref_rmGapSites h num den ends
     | compress => exact ref_compress h
+    | unalign => exact ref_unalign h
+    | renameRe ok names => exact ref_renameRe h ok names
+    | setAlpha a => exact ref_setAlpha h a
   exact this s' st hs
 
 /-- the reference model run over a history: final content and the status of every step; `none` as
@@ -657,5 +722,41 @@ example : NamesNodup (finalState (newAlign 1) [.add "a" [65], .add "a" [67], .ad
 -- three frames of a 5-column alignment (5 ≡ 2 mod 3) followed by a filter: within the rectangularity theorem
 example : HistRectOK (newAlign 1) [.add "a" [65, 67, 71, 84, 65], .translate (-1) 0, .filter 1 5] :=
   ⟨trivial, Or.inr (by decide), trivial, trivial⟩
+
+-- `Unalign` in a history: the alignment (one all-gap row, two rows made to share a name) becomes a sequence set
+-- in which the second `a` has been renamed by the insertion; the history continues on that set (a sequence of
+-- another length is accepted, `Append` is answered `na`); then `RenameRegexp` with the new names supplied makes
+-- two rows share a name again, and the lookup by name finds the first of them; `SetAlphabet` to amino acids and
+-- back to nucleotides (A, C, G, T fit both), then to an alphabet that cannot be given
+def demoHist3 : List Op :=
+  [.add "a" [65, 45, 67], .add "b" [45, 45, 45], .add "c" [45, 71, 71], .rename [("c", "a")], .unalign,
+   .add "d" [65, 67, 71, 84], .append [("z", [65])], .renameRe true ["x", "y", "x", "d"], .renameRe false [],
+   .setAlpha 0, .setAlpha 1, .setAlpha 2]
+
+set_option maxRecDepth 100000 in
+example : ∃ s' sts, specRun (abs (newAlign 1)) demoHist3 = some (s', sts) ∧
+    abs (finalState (newAlign 1) demoHist3) = s' ∧ (runOps (newAlign 1) demoHist3).map (·.2) = sts ∧
+    s'.rows = [("x", [65, 67]), ("y", []), ("x", [71, 71]), ("d", [65, 67, 71, 84])] ∧ s'.isAlign = false ∧
+    sts = ["ok", "ok", "ok", "ok", "ok", "ok", "na", "ok[a=x,b=y,a_0001=x,d=d]", "err[]", "ok", "ok", "err"] := by
+  have hsome : (specRun (abs (newAlign 1)) demoHist3).isSome = true := by decide
+  cases h : specRun (abs (newAlign 1)) demoHist3 with
+  | none => rw [h] at hsome; cases hsome
+  | some r =>
+    have := run_refines demoHist3 _ (good_of_empty_align 1) (by simp [demoHist3, HistWFR, OpWFR]) r.1 r.2 h
+    have h2 : (specRun (abs (newAlign 1)) demoHist3).map (fun r => (r.1.rows, r.1.isAlign, r.2)) =
+        some ([("x", [65, 67]), ("y", []), ("x", [71, 71]), ("d", [65, 67, 71, 84])], false,
+          ["ok", "ok", "ok", "ok", "ok", "ok", "na", "ok[a=x,b=y,a_0001=x,d=d]", "err[]", "ok", "ok", "err"]) := by decide
+    rw [h] at h2
+    simp only [Option.map_some, Option.some.injEq, Prod.mk.injEq] at h2
+    exact ⟨r.1, r.2, rfl, this.1, this.2.1, h2.1, h2.2.1, h2.2.2⟩
+
+-- the rectangularity theorem applies to histories through `Unalign` (vacuously after it: no reported length)
+example : HistRectOK (newAlign 1) [.add "a" [65, 45, 45], .unalign, .add "b" [65], .renameRe true ["b", "b"]] :=
+  ⟨trivial, trivial, trivial, trivial, trivial⟩
+
+-- names stay distinct through `Unalign` (no name edit in this history)
+example : NamesNodup (finalState (newAlign 1) [.add "a" [65, 45], .add "a" [45, 67], .unalign, .add "a" [71]]) :=
+  run_names_nodup _ _ (inv_newAlign 1) (rect_of_empty_align 1) (by simp [NamesNodup, newAlign])
+    (by simp [NameEdit]) (by simp [HistWF, OpWF]) (by simp [HistRectOK, RectOK])
 
 end Gv.Props.C01
